@@ -36,6 +36,29 @@ class VCustomInit(Exception):
         super().__init__(what, 'detail')
 
 
+_CAUSE = []
+
+
+def _cause_class():
+    if not _CAUSE:
+        import lazy_dataset
+
+        class VCause(VErrA, lazy_dataset.FilterException, ValueError, LookupError):
+            pass
+        _CAUSE.append(VCause)
+    return _CAUSE[0]
+
+
+class VChained(Exception):
+    """What `raise CorruptExample(x) from err` produces: an exception of an unrelated class whose explicit __cause__ is
+    an exception of (nearly) every class the generated catch sets list. It is still a VChained: a catch set catches
+    by the class of the exception that was raised, not by what caused it."""
+
+    def __init__(self, *args):
+        super().__init__(*args)
+        self.__cause__ = _cause_class()('the listed exception this one was raised from')
+
+
 class VFalsy(Exception):
     """An exception whose instances are falsy (a container-like error, e.g. a collection of validation errors that
     defines __len__): `if error:` is not a test for "an error happened"."""
@@ -51,7 +74,7 @@ def exc_class(name):
     if name == 'FilterException':
         import lazy_dataset
         return lazy_dataset.FilterException
-    return {'VErrA': VErrA, 'VErrB': VErrB, 'VErrC': VErrC, 'VBase': VBase, 'VFalsy': VFalsy, 'VCustomInit': VCustomInit, 'Exception': Exception,
+    return {'VErrA': VErrA, 'VErrB': VErrB, 'VErrC': VErrC, 'VBase': VBase, 'VFalsy': VFalsy, 'VCustomInit': VCustomInit, 'VChained': VChained, 'Exception': Exception,
             'ValueError': ValueError, 'LookupError': LookupError, 'KeyError': KeyError,
             'IndexError': IndexError, 'OSError': OSError, 'FileNotFoundError': FileNotFoundError,
             'NotImplementedError': NotImplementedError, 'StopIteration': StopIteration,
